@@ -662,13 +662,7 @@ func ruleReplayBeforeTerminal() check.Rule {
 					}
 					return false
 				}
-				var sw *ast.SwitchStmt
-				ast.Inspect(fd.Body, func(n ast.Node) bool {
-					if s, ok := n.(*ast.SwitchStmt); ok && sw == nil && s.Tag != nil && isStatusSel(info, s.Tag) {
-						sw = s
-					}
-					return true
-				})
+				sw := statusSwitchOf(info, fd.Body)
 				key := fmt.Sprintf("ro.%s.SubscribeWithContext/replay", tname)
 				if hasField("values") {
 					c.Inc("backlog_subjects", 1)
@@ -951,7 +945,7 @@ func ruleSiblingTable() check.Rule {
 								}
 							}
 						case *ast.IfStmt:
-							if implies(x.Cond, true, atomStatusOpen(info)) {
+							if implies(x.Cond, true, atomStatusOpen(info)) || statusKindTest(info, x.Cond) != nil {
 								f["gate"] = true
 							}
 						case *ast.SwitchStmt:
